@@ -91,6 +91,7 @@ ARG_VALUES = {
 }
 RUNNABLE_WRITERS = ['write_fistr', 'write_ucd', 'write_obj', 'write_vtk']
 BASELINE = lib.COQ / 'C19' / 'gen_baseline'
+REINDEX_KINDS = ['ids_roll', 'ids_reverse', 'update_overwrite', 'update_add']
 DERIVS = {'to_surface': SOLID, 'to_polyhedron': SOLID, 'to_facets': SOLID, 'to_first_order': ALL,
           'resolve_degeneracy': ('hex',)}
 
@@ -290,6 +291,8 @@ def gen_history(rng, cat, modifiers, tier):
                 args = {'reset': rng.random() < 0.6}
             if e == 'assign_nodes':
                 args = {'kind': rng.choice(['new', 'same_array'])}
+            if e == 'reindex_nodes':
+                args = {'kind': rng.choice(REINDEX_KINDS)}
             hist.append(e_op(o, e, args))
         elif r < 0.90:
             hist.append(e_op(o, rng.choice(RUNNABLE_WRITERS)))
@@ -707,7 +710,8 @@ def witness_histories(ctx, fails, cat, cfgq, effects):
                     args = {'kind': 'roll' if len(m['elements'][m['kind']]['ids']) > 1 else 'swap01'} \
                         if b == 'assign_connectivity' else ({'reset': True} if b in ('rotation', 'translation')
                                                             else ({'kind': 'same_array'} if b == 'assign_nodes'
-                                                                  else {}))
+                                                                  else ({'kind': 'ids_roll'} if b == 'reindex_nodes'
+                                                                        else {})))
                     h = [{'op': 'new', 'o': 0, 'mesh': m}, q_op(0, a, kw), e_op(0, b, args), q_op(0, a, kw)]
                     out.append((f, h))
                     if pre_of.get(b) and (a in pre_of[b] or k == 'stale-slot'):
@@ -719,6 +723,14 @@ def witness_histories(ctx, fails, cat, cfgq, effects):
                         out.append((f, [{'op': 'new', 'o': 0, 'mesh': m}, e_op(0, b, args), e_op(0, b, args)]))
                         for kw2 in cat.get(a, (ALL, [{}]))[1]:
                             out.append((f, [{'op': 'new', 'o': 0, 'mesh': m}, q_op(0, a, kw2), e_op(0, b, args)]))
+                    if b == 'reindex_nodes':
+                        # (a satisfied clause in the quick tier: one more kind, rotating)
+                        rest = REINDEX_KINDS[1:]
+                        if f.get('probe') and ctx.tier != 'thorough':
+                            rest = [rest[len(out) % len(rest)]]
+                        for knd in rest:
+                            out.append((f, [{'op': 'new', 'o': 0, 'mesh': m}, q_op(0, a, kw),
+                                            e_op(0, b, {'kind': knd}), q_op(0, a, kw)]))
                     if b == 'assign_connectivity':
                         for knd in ('swap01', 'same_array', 'same_array_rows'):
                             h2 = [{'op': 'new', 'o': 0, 'mesh': m}, q_op(0, a, kw),
@@ -797,7 +809,8 @@ def witness_histories(ctx, fails, cat, cfgq, effects):
             for d in ('to_surface', 'to_facets', 'to_polyhedron'):
                 m = gen_mesh(rng, kind, ['unref'])
                 args = {'reset': True} if e['name'] in ('rotation', 'translation') else \
-                    ({'kind': 'swap01'} if e['name'] == 'assign_connectivity' else {})
+                    ({'kind': 'swap01'} if e['name'] == 'assign_connectivity' else
+                     ({'kind': 'update_overwrite'} if e['name'] == 'reindex_nodes' else {}))
                 out.append((extra, [{'op': 'new', 'o': 0, 'mesh': m}, e_op(0, e['name'], args),
                                     {'op': 'derive', 'o': 0, 'o2': 1, 'd': d}]))
                 out.append((extra, [{'op': 'new', 'o': 0, 'mesh': m}, {'op': 'derive', 'o': 0, 'o2': 1, 'd': d},
